@@ -25,7 +25,7 @@ META = dict(
                  'the lifecycle automaton (REF-FSM) is the trusted model'],
     min_events={'quick': {'step_limit_runs': 8000, 'timeout_runs': 3000, 'timeouts_raised': 800, 'idempotence_checks': 2000,
                           'locked_mutations_checked': 3000, 'interleavings': 1000, 'logics': 52},
-                'thorough': {'step_limit_runs': 150000, 'timeout_runs': 60000, 'timeouts_raised': 15000, 'logics': 52}},
+                'thorough': {'step_limit_runs': 50000, 'timeout_runs': 20000, 'timeouts_raised': 8000, 'logics': 52}},
     budget=dict(quick=1500, thorough=7200),
     unit_timeout=dict(quick=900, thorough=3000),
 )
